@@ -1024,7 +1024,7 @@ package node
 // is that word as a function of the node counter drawn for the send; the lemma states what the
 // matching needs: different counters give different words (a late acknowledgement of an earlier send
 // can then never match a later one).
-//@ spec func impWord(id uint64) uint64 = refw0(id) + refw1(id)
+//@ spec func impWord(id uint64) uint64 = refw0(id) | (refw1(id) << 18)
 //@ lemma importantRef_injective props C07 C12: forall a, b uint64 :: a != b ==> impWord(a) != impWord(b)
 //@ func (p *process) SendPID
 //@   props C07 C12
@@ -1034,4 +1034,22 @@ package node
 //@   requires [tables] tablesWF(p.node)
 //@   requires [called_from_callback] owner(p) == me && fin(p) == 0
 //@   at call RouteSendPID assert [important_send_travels_under_the_counter_word] options.ImportantDelivery ==> options.Ref.ID[0] == impWord(p.node.uniqID) && options.Ref.ID[1] == 0 && options.Ref.ID[2] == 0 && p.node.uniqID == old(p.node.uniqID) + 1
+//@   at call waitResponse assert [waits_for_the_word_it_sent] ref.ID[0] == impWord(p.node.uniqID) && ref.ID[1] == 0 && ref.ID[2] == 0 && ref.Node == p.node.name
+//@ func (p *process) SendProcessID
+//@   props C07 C12
+//@   protocol procState at p
+//@   no_frame
+//@   requires p.node != nil && mailboxWF(p)
+//@   requires [tables] tablesWF(p.node)
+//@   requires [called_from_callback] owner(p) == me && fin(p) == 0
+//@   at call RouteSendProcessID assert [important_send_travels_under_the_counter_word] options.ImportantDelivery ==> options.Ref.ID[0] == impWord(p.node.uniqID) && options.Ref.ID[1] == 0 && options.Ref.ID[2] == 0 && p.node.uniqID == old(p.node.uniqID) + 1
+//@   at call waitResponse assert [waits_for_the_word_it_sent] ref.ID[0] == impWord(p.node.uniqID) && ref.ID[1] == 0 && ref.ID[2] == 0 && ref.Node == p.node.name
+//@ func (p *process) SendAlias
+//@   props C07 C12
+//@   protocol procState at p
+//@   no_frame
+//@   requires p.node != nil && mailboxWF(p)
+//@   requires [tables] tablesWF(p.node) && aliasesWF(p.node)
+//@   requires [called_from_callback] owner(p) == me && fin(p) == 0
+//@   at call RouteSendAlias assert [important_send_travels_under_the_counter_word] options.ImportantDelivery ==> options.Ref.ID[0] == impWord(p.node.uniqID) && options.Ref.ID[1] == 0 && options.Ref.ID[2] == 0 && p.node.uniqID == old(p.node.uniqID) + 1
 //@   at call waitResponse assert [waits_for_the_word_it_sent] ref.ID[0] == impWord(p.node.uniqID) && ref.ID[1] == 0 && ref.ID[2] == 0 && ref.Node == p.node.name
